@@ -107,6 +107,15 @@ pub fn main(args: &[String]) -> i32 {
             }
         }
     }
+    // 2c. long inputs (16 .. 96 KB): plain text, well-formed markup, delimiter soups, one long line and many short ones
+    for kb in [16usize, 32, 96] {
+        let n = kb * 1024;
+        inputs.push("lorem ipsum dolor sit amet ".repeat(n / 27));
+        inputs.push("{{ a }}{% if a %}x{% else %}y{% endif %}{% for i in (1..2) %}{{ i }}{% endfor %}\n".repeat(n / 80));
+        inputs.push("{{ {% %} }} {%- -%} {{- ".repeat(n / 24));
+        inputs.push(format!("{}{{% if %}}", "é日😀 ".repeat(n / 12)));
+        inputs.push(format!("{{% raw %}}{}{{% endraw %}}{{% comment %}}{}{{% endcomment %}}", "{{ x }} ".repeat(n / 16), "{% y %} ".repeat(n / 16)));
+    }
     // 3. random soups and mutations
     for k in 0..n {
         if k % 2 == 0 {
@@ -127,7 +136,8 @@ pub fn main(args: &[String]) -> i32 {
     let mut samples = Vec::new();
     for (k, src) in inputs.iter().enumerate() {
         for cfg in ["stdlib", "all", "empty"] {
-            let _ = writeln!(f, "{}", json!({"e": "Call", "op": "parse", "cfg": cfg, "src": src}));
+            let shown: String = if src.len() > 2000 { format!("{}... ({} bytes)", src.chars().take(200).collect::<String>(), src.len()) } else { src.clone() };
+            let _ = writeln!(f, "{}", json!({"e": "Call", "op": "parse", "cfg": cfg, "src": shown}));
             events += 1;
             calls += 1;
             let s2 = src.clone();
